@@ -9,6 +9,8 @@ from gen import intervals as G
 ID = "C19"
 PROPS = ["IsoVerif/Props/C19.lean", "IsoVerif/Props/C19Lists.lean", "IsoVerif/Props/C19Profiles.lean",
          "IsoVerif/Props/C19Split.lean", "IsoVerif/Props/C19Compose.lean",
+         # audit-2: split-exon read profile (exact spec), guards of the call sites that pass derived lists
+         "IsoVerif/Lemmas/C19NoSweep.lean", "IsoVerif/Props/C19NonOverlapping.lean", "IsoVerif/Props/C19Callers.lean",
          # loop functions regenerated from the source (Gen/Loops.lean): refinement theorems Gen.f = Model.f and the headline
          # theorems over Gen.f, one file per group of functions; the loop-invariant lemmas are audited too so that a re-opened
          # proof is named precisely and takes down only its own group
@@ -19,6 +21,7 @@ PROPS = ["IsoVerif/Props/C19.lean", "IsoVerif/Props/C19Lists.lean", "IsoVerif/Pr
          "IsoVerif/Lemmas/GenBinSearch.lean", "IsoVerif/Props/C19GenBinSearch.lean",
          "IsoVerif/Lemmas/GenTruncate.lean", "IsoVerif/Props/C19GenTruncate.lean"]
 TARGETS = ["IsoVerif.Props.C19", "IsoVerif.Props.C19Lists", "IsoVerif.Props.C19Profiles", "IsoVerif.Props.C19Split", "IsoVerif.Props.C19Compose",
+           "IsoVerif.Props.C19NonOverlapping", "IsoVerif.Props.C19Callers",
            "IsoVerif.Props.C19GenSums", "IsoVerif.Props.C19GenJunctions", "IsoVerif.Props.C19GenSweeps",
            "IsoVerif.Props.C19GenBinSearch", "IsoVerif.Props.C19GenTruncate", "IsoVerif.Props.C19Gen"]
 GEN_DEPS = ["Prims", "LoopsRt", "Loops", "LoopsOps"]
@@ -111,6 +114,8 @@ def impl_call(op, kw):
             return _impl_overlapping_profile(kw)
         if op == "nonoverlapping_profile":
             return _impl_nonoverlapping_profile(kw)
+        if op == "corrector_guard":
+            return _impl_corrector_guard(kw)
     except (IndexError, AssertionError, ZeroDivisionError, KeyError, ValueError, TypeError) as ex:
         return {"error": "error", "exc": type(ex).__name__}
     raise RuntimeError("unknown op " + op)
@@ -163,6 +168,57 @@ def _impl_nonoverlapping_profile(kw):
                                                     delta=kw["d"])
     r = c.construct_profile([tuple(x) for x in kw["read"]], kw["polya"], kw["polyt"])
     return {"gene": r.gene_profile, "read": r.read_profile, "range": list(r.gene_profile_range)}
+
+
+def _impl_corrector_guard(kw):
+    """the REAL tail of ExonCorrector.correct_assigned_read (intron-chain guard, junctions_from_blocks, exon-chain guard) on a
+    given result of correct_misalignments (stubbed on the instance: process_events itself is C14's model)"""
+    import src.exon_corrector as EC
+    from src.isoform_assignment import ReadAssignmentType
+    from types import SimpleNamespace
+    ec = object.__new__(EC.ExonCorrector)
+    reg, ni = tuple(kw["reg"]), [tuple(x) for x in kw["ni"]]
+    ec.correct_misalignments = lambda ai, ra: (reg, list(ni))
+    ai = SimpleNamespace(read_exons=[tuple(x) for x in kw["exons"]])
+    ra = SimpleNamespace(assignment_type=ReadAssignmentType.unique, isoform_matches=[object()])
+    return [list(x) for x in ec.correct_assigned_read(ai, ra)]
+
+
+def corrector_guard_cases(rng, quick):
+    """(region, new introns, read exons): exhaustive small universe - every list of <= 2 ARBITRARY intervals (also empty
+    / ill-formed (a, a-1), repeated, overlapping, touching) over 0..5 x every region over 0..6 (sampled in quick) - + genome
+    scale: the introns of a gapped read with independently jittered sites (what process_events produces), sometimes a
+    repeated / dropped intron or a moved region end (terminal-exon correction)"""
+    cases = []
+    U = 5
+    ivs = [(a, b) for a in range(0, U + 1) for b in range(max(0, a - 1), U + 1)]
+    lists = [[]] + [[x] for x in ivs] + [[x, y] for x in ivs for y in ivs]
+    regs = [(a, b) for a in range(0, U + 2) for b in range(a, U + 2)]
+    small = [(r, l) for l in lists for r in regs]
+    if quick:
+        small = rng.sample(small, 5000)
+    for r, l in small:
+        cases.append(("corrector_guard", {"reg": r, "ni": l, "exons": [(r[0], r[0]), (r[1] + 2, r[1] + 3)]}))
+    for _ in range(600 if quick else 6000):
+        ex = G.rand_sd_list(rng, rng.randint(2, 9), 10 ** 6)
+        ex = [e for i, e in enumerate(ex) if i == 0 or ex[i - 1][1] + 1 < e[0]]
+        if len(ex) < 2:
+            continue
+        micro = rng.random() < 0.5
+        ni = []
+        for i in range(len(ex) - 1):
+            a, b = ex[i][1] + 1, ex[i + 1][0] - 1
+            if micro and rng.random() < 0.4:
+                b = a + rng.randint(0, 2)            # a short intron: the exon after it starts right behind
+            ni.append((a + rng.choice([0, 0, 0, 1, -1, 2, -3, 6]), b + rng.choice([0, 0, 0, 1, -1, -2, 3, -6])))
+        if rng.random() < 0.1 and ni:
+            k = rng.randrange(len(ni))
+            ni.insert(k, ni[k])
+        if rng.random() < 0.1 and len(ni) > 1:
+            del ni[rng.randrange(len(ni))]
+        reg = (ex[0][0] + rng.choice([0, 0, 0, -30, 40]), ex[-1][1] + rng.choice([0, 0, 0, 30, -40]))
+        cases.append(("corrector_guard", {"reg": reg, "ni": ni, "exons": ex}))
+    return cases
 
 
 def _same_special(op, mo, io):
@@ -231,6 +287,7 @@ def gen_cases(ctx, have_ops):
             continue
         reg = (l[0][0] - rng.randint(1, 3), l[-1][1] + rng.randint(1, 3))
         cases.append(("get_exons", {"r": reg, "l": l}))
+        cases.append(("get_exons", {"r": (l[0][0] - rng.randint(0, 1), l[-1][1] + rng.randint(0, 1)), "l": l}))   # intron on the border
         cases.append(("extra_exon_percentage", {"r": (rng.randint(0, UL), rng.randint(0, UL) + 3), "l": l}))
         for i in range(-len(l) - 2, len(l) + 2):
             cases.append(("get_exon", {"r": reg, "l": l, "i": i}))
@@ -266,6 +323,12 @@ def gen_cases(ctx, have_ops):
         cases += G.overlapping_profile_cases(rng, quick)
     if "nonoverlapping_profile" in have_ops:
         cases += G.nonoverlapping_profile_cases(rng, quick)
+        # audit-2 G7: empty known list (GeneInfo.from_region: intergenic cluster / run without --genedb), with and without a tail
+        for pa, pt in ((-1, -1), (3000, -1), (-1, 1000), (3000, 1000)):
+            cases.append(("nonoverlapping_profile", {"known": [], "read": [(1000, 1500), (2000, 3000)], "polya": pa, "polyt": pt,
+                                                     "d": 6, "min_ov": 5}))
+    if "corrector_guard" in have_ops:
+        cases += corrector_guard_cases(rng, quick)
     return cases
 
 
@@ -275,7 +338,8 @@ def model_ops(ctx):
               "isoform_profile": {"features": [[1, 2]], "tf": [[1, 2]], "region": [1, 2], "cmp": "equal"},
               "overlapping_profile": {"kind": "exon", "known": [[1, 2]], "gene_region": [1, 2], "read": [[1, 2]],
                                       "mapped": [1, 2], "polya": -1, "polyt": -1, "d": 0, "abs_d": 0},
-              "nonoverlapping_profile": {"known": [[1, 2]], "read": [[1, 2]], "polya": -1, "polyt": -1, "d": 0, "min_ov": 1}}
+              "nonoverlapping_profile": {"known": [[1, 2]], "read": [[1, 2]], "polya": -1, "polyt": -1, "d": 0, "min_ov": 1},
+              "corrector_guard": {"reg": [1, 9], "ni": [[3, 4]], "exons": [[1, 2], [5, 9]]}}
     outs = ctx.driver.run([vlib.req("C19." + k, **v) for k, v in probes.items()])
     return {k for k, o in zip(probes, outs) if not (isinstance(o, dict) and "driver_error" in o)}
 
@@ -325,79 +389,115 @@ def correspondence(ctx):
     if not ctx.samples and cases:
         ctx.sample({"op": cases[0][0], "input": vlib.canon(cases[0][1]), "model": outs[0]})
     # glue: GeneInfo built from a gffutils database with a non-zero delta (as the pipeline does)
-    annots = gene_profile_annotations(ctx.rng, 60 if ctx.tier == "quick" else 600)
-    for tr, delta in annots:
-        fails, reqs, exps = gene_profile_case(ctx, tr, delta)
+    annots = gene_profile_annotations(ctx.rng, 80 if ctx.tier == "quick" else 800)
+    for genes, delta, builder in annots:
+        fails, reqs, exps = gene_profile_case(ctx, genes, delta, builder)
         mouts = ctx.driver.run(reqs)
-        for (kind, t_id, got), mo in zip(exps, mouts):
+        for (kind, t_id, got, grange), mo in zip(exps, mouts):
             ctx.evaluations += 1
             ctx.traces_validated += 1
-            ctx.count("op:gene_profile_" + kind)
-            if isinstance(mo, dict) and mo.get("profile") == got:
-                ctx.mark_nontrivial(["gene_profile", kind, t_id, sorted(tr.items()), delta])
+            ctx.count("op:gene_profile_%s:%s" % (kind, builder))
+            if isinstance(mo, dict) and mo.get("profile") == got and list(mo.get("range", [])) == grange:
+                ctx.mark_nontrivial(["gene_profile", kind, t_id, vlib.canon(genes), delta, builder])
             else:
-                ctx.disagree("gene_profile_" + kind, {"transcripts": tr, "delta": delta, "t": t_id}, mo, got)
+                ctx.disagree("gene_profile_" + kind, {"genes": genes, "delta": delta, "builder": builder, "t": t_id}, mo,
+                             {"profile": got, "range": grange})
 
 
 
 # ------------------------------------------------------------------------------------------------
 # glue: isoform profiles as the pipeline builds them (GeneInfo from a gffutils db with the data-type delta)
 
-def _make_db(transcripts, strand="+"):
+def _make_db(genes):
+    """genes: {gene_id: (strand, {transcript_id: exons})}"""
     import gffutils
     lines = []
-    gstart = min(e[0][0] for e in transcripts.values())
-    gend = max(e[-1][1] for e in transcripts.values())
-    lines.append('chr1\tsyn\tgene\t%d\t%d\t.\t%s\t.\tgene_id "G1";' % (gstart, gend, strand))
-    for t_id, exons in transcripts.items():
-        lines.append('chr1\tsyn\ttranscript\t%d\t%d\t.\t%s\t.\tgene_id "G1"; transcript_id "%s";'
-                     % (exons[0][0], exons[-1][1], strand, t_id))
-        for e in exons:
-            lines.append('chr1\tsyn\texon\t%d\t%d\t.\t%s\t.\tgene_id "G1"; transcript_id "%s";' % (e[0], e[1], strand, t_id))
+    for gid, (strand, transcripts) in genes.items():
+        gstart = min(e[0][0] for e in transcripts.values())
+        gend = max(e[-1][1] for e in transcripts.values())
+        lines.append('chr1\tsyn\tgene\t%d\t%d\t.\t%s\t.\tgene_id "%s";' % (gstart, gend, strand, gid))
+        for t_id, exons in transcripts.items():
+            lines.append('chr1\tsyn\ttranscript\t%d\t%d\t.\t%s\t.\tgene_id "%s"; transcript_id "%s";'
+                         % (exons[0][0], exons[-1][1], strand, gid, t_id))
+            for e in exons:
+                lines.append('chr1\tsyn\texon\t%d\t%d\t.\t%s\t.\tgene_id "%s"; transcript_id "%s";' % (e[0], e[1], strand, gid, t_id))
     return gffutils.create_db("\n".join(lines) + "\n", ":memory:", from_string=True, force=True, keep_order=True,
                               merge_strategy='error', sort_attribute_values=True,
                               disable_infer_transcripts=True, disable_infer_genes=True)
 
 
+def _gene_variants(rng, base, genome):
+    """isoforms of one gene: T1 + variants whose splice sites differ by a few bases (<= the data-type deltas).  Exons of one
+    transcript are sorted and pairwise disjoint; they may TOUCH (DESIGN §6: touching intervals allowed) and be 1 bp long"""
+    nex = rng.randint(1 if not genome else 2, 5)
+    exons = []
+    p = base
+    for _ in range(nex):
+        ln = rng.randint(30, 200) if genome else rng.choice([1, 1, 2, 3, 5, 30])
+        exons.append((p, p + ln - 1))
+        p += ln + (rng.randint(60, 400) if genome else rng.choice([0, 0, 1, 1, 2, 5, 60]))     # 0: touching exons, 1: 1-bp intron
+    tr = {"T1": exons}
+    for k in range(2, rng.randint(3, 5)):
+        e2 = []
+        for (a, b) in exons:
+            if rng.random() < 0.15 and len(exons) > 2:
+                continue
+            e2.append((a + rng.choice([0, 0, 0, 1, 3, -2, 5, -6, 12]), b + rng.choice([0, 0, 0, 1, -3, 2, 4, -5, 9])))
+        e2 = [e for e in e2 if 1 <= e[0] <= e[1]]
+        if rng.random() < 0.2 and len(e2) >= 2:            # glue two neighbouring exons so that they touch
+            i = rng.randrange(len(e2) - 1)
+            if e2[i][1] + 1 <= e2[i + 1][1]:
+                e2[i + 1] = (e2[i][1] + 1, e2[i + 1][1])
+        ok = len(e2) >= 1 and all(e2[i][1] < e2[i + 1][0] for i in range(len(e2) - 1))
+        if ok and e2 not in tr.values():
+            tr["T%d" % k] = e2
+    return tr, p
+
+
 def gene_profile_annotations(rng, n):
-    """isoform sets of one gene whose alternative splice sites differ by a few bases (<= the data-type deltas)"""
+    """(genes, delta, builder): one or two genes (any strands, possibly overlapping) loaded into ONE GeneInfo, built from a
+    gffutils database (as the pipeline does) or by GeneInfo.from_models (as model construction does); genome-scale or
+    micro-scale (1-bp exons / introns, touching exons); delta of every data type"""
     res = []
     for _ in range(n):
+        genome = rng.random() < 0.5
         base = 1000 * rng.randint(1, 50)
-        nex = rng.randint(2, 5)
-        exons = []
-        p = base
-        for _ in range(nex):
-            ln = rng.randint(30, 200)
-            exons.append((p, p + ln))
-            p += ln + rng.randint(60, 400)
-        tr = {"T1": exons}
-        for k in range(2, rng.randint(3, 5)):
-            e2 = []
-            for (a, b) in exons:
-                if rng.random() < 0.15 and len(exons) > 2:
-                    continue
-                e2.append((a + rng.choice([0, 0, 0, 1, 3, -2, 5, -6, 12]), b + rng.choice([0, 0, 0, 1, -3, 2, 4, -5, 9])))
-            e2 = [e for e in e2 if e[0] <= e[1]]
-            ok = len(e2) >= 1 and all(e2[i][1] + 1 < e2[i + 1][0] for i in range(len(e2) - 1))
-            if ok and e2 not in tr.values():
-                tr["T%d" % k] = e2
-        res.append((tr, rng.choice([0, 3, 4, 6, 12])))
+        genes = {}
+        tr, end = _gene_variants(rng, base, genome)
+        genes["G1"] = (rng.choice("+-"), {"G1" + t: e for t, e in tr.items()})
+        if rng.random() < 0.4:
+            b2 = rng.choice([base + rng.randint(0, 20), end + rng.randint(-10, 300)])
+            tr2, _ = _gene_variants(rng, max(1, b2), genome)
+            genes["G2"] = (rng.choice("+-"), {"G2" + t: e for t, e in tr2.items()})
+        res.append((genes, rng.choice([0, 3, 4, 6, 12]), rng.choice(["db", "db", "models"])))
     return res
 
 
-def gene_profile_case(ctx, transcripts, delta):
-    """returns (failures, disagreements) for one annotation: real GeneInfo profiles vs set definition and vs the model"""
+def _junctions(exons):
+    # introns of a transcript as GeneInfo computes them (junctions_from_blocks: touching exons have no intron between them)
+    return [(exons[i][1] + 1, exons[i + 1][0] - 1) for i in range(len(exons) - 1) if exons[i][1] + 1 < exons[i + 1][0]]
+
+
+def gene_profile_case(ctx, genes, delta, builder="db"):
+    """one annotation: real GeneInfo profiles vs the set definition (-> fails) and the requests / expectations for the model"""
     C, GI, LP = _impl()
-    db = _make_db(transcripts)
-    gi = GI.GeneInfo([db["G1"]], db, delta)
+    if isinstance(next(iter(genes.values())), list):      # old replay format: {transcript: exons} of one + gene
+        genes = {"G1": ("+", genes)}
+    if builder == "models":
+        from src.gene_info import TranscriptModel, TranscriptModelType
+        gi = GI.GeneInfo.from_models([TranscriptModel("chr1", st, t, g, [tuple(e) for e in ex], TranscriptModelType.known)
+                                      for g, (st, trs) in genes.items() for t, ex in trs.items()], delta)
+    else:
+        db = _make_db(genes)
+        gi = GI.GeneInfo([db[g] for g in genes], db, delta)
+    transcripts = {t: e for _, trs in genes.values() for t, e in trs.items()}
     fails, reqs, exps = [], [], []
     for kind, prof, cmpname in (("intron", gi.intron_profiles, "equal"), ("exon", gi.exon_profiles, "equal"),
                                 ("split", gi.split_exon_profiles, "contains")):
         feats = [tuple(f) for f in prof.features]
         for t_id, exons in transcripts.items():
             exons = [tuple(e) for e in exons]
-            own = exons if kind != "intron" else [(exons[i][1] + 1, exons[i + 1][0] - 1) for i in range(len(exons) - 1)]
+            own = exons if kind != "intron" else _junctions(exons)
             region = (exons[0][0], exons[-1][1])
             got = list(prof.profiles[t_id])
             exp = []
@@ -408,11 +508,13 @@ def gene_profile_case(ctx, transcripts, delta):
                     exp.append(1 if any(e[0] <= f[0] and f[1] <= e[1] for e in exons) else -1)
                 else:
                     exp.append(1 if f in own else -1)
-            if got != exp:
+            ones = [i for i, v in enumerate(got) if v == 1]
+            exp_range = (ones[0], ones[-1] + 1) if ones else (len(got), 0)
+            if got != exp or tuple(prof.profile_ranges[t_id]) != exp_range:
                 fails.append({"kind": kind, "transcript": t_id, "features": feats, "own": own, "delta": delta,
-                              "got": got, "expected": exp})
+                              "got": got, "expected": exp, "range": list(prof.profile_ranges[t_id]), "expected_range": list(exp_range)})
             reqs.append(vlib.req("C19.isoform_profile", features=feats, tf=own, region=region, cmp=cmpname))
-            exps.append((kind, t_id, got))
+            exps.append((kind, t_id, got, list(prof.profile_ranges[t_id])))
     return fails, reqs, exps
 
 
@@ -506,15 +608,19 @@ def oracle_case(op, kw):
         if op == "get_exons":
             l = tl(kw["l"])
             r = t(kw["r"])
-            if not (G.is_sd(l) and l) or not (r[0] < l[0][0] and l[-1][1] < r[1]) or r[1] - r[0] > 10 ** 5:
-                return None
-            if any(l[i][1] + 1 >= l[i + 1][0] for i in range(len(l) - 1)):
+            # audit-2 G5: domain = region contains the introns (an intron may start / end at the region border, consecutive
+            # introns may touch: the exon between them is empty and is dropped); an intron reaching outside the region is outside
+            # the domain (no caller: the region is the span of the exons the introns come from)
+            if not (G.is_sd(l) and l) or not (r[0] <= l[0][0] and l[-1][1] <= r[1]) or r[1] - r[0] > 10 ** 5:
                 return None
             got = C.get_exons(r, l)
             exp = set(range(r[0], r[1] + 1)) - posset(l)
-            if posset(got) != exp:
+            if posset(got) != exp or not all(a <= b for a, b in got) or not G.is_sd(got):
                 return "exons differ: %s" % (got,)
-            return None if C.junctions_from_blocks(got) == l else "junctions(exons) != introns"
+            gapped = r[0] < l[0][0] and l[-1][1] < r[1] and all(l[i][1] + 1 < l[i + 1][0] for i in range(len(l) - 1))
+            if gapped != (len(got) == len(l) + 1):
+                return "length guard: %d exons for %d introns, gapped=%s" % (len(got), len(l), gapped)
+            return None if (not gapped or C.junctions_from_blocks(got) == l) else "junctions(exons) != introns"
         if op == "split_exons":
             ex = tl(kw["l"])
             if not ex or any(a > b or a < 1 for a, b in ex) or max(b for _, b in ex) - min(a for a, _ in ex) > 10 ** 5:
@@ -529,6 +635,38 @@ def oracle_case(op, kw):
                     if C.overlaps(blk, e) and not C.contains(e, blk):
                         return "block %s straddles exon %s" % (blk, e)
             return None
+        if op == "corrector_guard":
+            reg, ni, ex = t(kw["reg"]), tl(kw["ni"]), tl(kw["exons"])
+            if len(ex) < 2 or (ni and (ni[-1][1] - ni[0][0] > 10 ** 7)):
+                return None
+            got = [tuple(x) for x in _impl_corrector_guard(kw)]
+            if got == ex:
+                return None          # correction discarded (or equal to the read)
+            # an accepted correction: sorted disjoint well-formed blocks from the region start to its end whose gaps are
+            # EXACTLY the new introns - no intron closed (touching blocks), no exon dropped
+            if not (G.is_sd(got) and all(a <= b for a, b in got)):
+                return "corrected exons not sorted / disjoint / well formed: %s" % (got,)
+            if (got[0][0], got[-1][1]) != reg:
+                return "corrected exons %s do not span the corrected region %s" % (got, reg)
+            gaps = [(got[i][1] + 1, got[i + 1][0] - 1) for i in range(len(got) - 1)]
+            if any(a > b for a, b in gaps):
+                return "blocks of the corrected alignment touch (an intron was closed): new introns %s, exons %s" % (ni, got)
+            if gaps != ni:
+                return "new introns %s, introns of the corrected alignment %s (exons %s)" % (ni, [g for g in gaps if g[0] <= g[1]], got)
+            return None
+        if op == "nonoverlapping_profile":
+            known, read = tl(kw["known"]), tl(kw["read"])
+            if not known and G.is_sd(read) and read:
+                got = _impl_nonoverlapping_profile(kw)      # audit-2 G7: must not raise on an empty gene info
+                return None if got["gene"] == [] and got["read"] == [0] * len(read) else "empty known list: %s" % (got,)
+            if not (G.is_sd(known) and G.is_sd(read) and known and read):
+                return None
+            got = _impl_nonoverlapping_profile(kw)
+            exp = nonoverlapping_spec(known, read, kw["min_ov"], kw["d"], kw["polya"], kw["polyt"])
+            if got["gene"] != exp:
+                return "split-exon read profile %s, statement %s" % (got["gene"], exp)
+            expr = nonoverlapping_read_side(known, read, kw["min_ov"])
+            return None if got["read"] == expr else "split-exon read profile, read side %s, statement %s" % (got["read"], expr)
         if op == "truncate_read_to_polya":
             l = tl(kw["l"])
             a, tt = kw["a"], kw["t"]
@@ -553,6 +691,69 @@ def oracle_case(op, kw):
     return None
 
 
+def nonoverlapping_spec(known, read, min_ov, d, pa, pt):
+    """statement for NonOverlappingFeaturesProfileConstructor.construct_profile (reading rule proposed for DESIGN §6, theorem
+    Props/C19NonOverlapping.nonoverlapping_profile_spec): a block is PRESENT iff some read exon overlaps it and passes the
+    comparator; ABSENT iff not present and its END lies strictly inside a gap between two consecutive read exons; else 0
+    (undetermined: outside the read, or overlapping a read exon by fewer than min_ov bases without its end in a gap);
+    -2 beyond the block holding polyA + delta / before the block holding polyT - delta"""
+    C, GI, LP = _impl()
+    out = []
+    for k in known:
+        present = any(C.overlaps(r, k) and C.overlaps_at_least_when_overlap(r, k, min_ov) for r in read)
+        absent = (not present) and any(read[j][1] < k[1] < read[j + 1][0] for j in range(len(read) - 1))
+        out.append(1 if present else (-1 if absent else 0))
+    if pa != -1:
+        p = pa + d
+        if known[0][0] <= p <= known[-1][1]:
+            idx = max(i for i in range(len(known)) if known[i][0] <= p)
+            for i in range(idx + 1, len(known)):
+                out[i] = -2
+    if pt != -1:
+        p = pt - d
+        if known[0][0] <= p <= known[-1][1]:
+            idx = min(i for i in range(len(known)) if p <= known[i][1])
+            for i in range(idx):
+                out[i] = -2
+    return out
+
+
+def nonoverlapping_read_side(known, read, min_ov):
+    """read exon: 1 iff it overlaps a block and passes the comparator; -1 iff not and its end lies in a gap between two consecutive
+    blocks (K[i].2 <= r.2 < K[i+1].1); else 0"""
+    C, GI, LP = _impl()
+    out = []
+    for r in read:
+        present = any(C.overlaps(r, k) and C.overlaps_at_least_when_overlap(r, k, min_ov) for k in known)
+        absent = (not present) and any(known[i][1] <= r[1] < known[i + 1][0] for i in range(len(known) - 1))
+        out.append(1 if present else (-1 if absent else 0))
+    return out
+
+
+def witness_replays(ctx):
+    """the `_witness` theorems of Props/C19NonOverlapping.lean / C19Callers.lean on the real code"""
+    res = {}
+    # nonoverlapping_literal_witness: the literal sentence differs from the code (0, not -1)
+    kw = {"known": [(2, 3)], "read": [(1, 1), (3, 5)], "polya": -1, "polyt": -1, "d": 0, "min_ov": 2}
+    got = impl_call("nonoverlapping_profile", kw)
+    res["nonoverlapping_literal_witness"] = got
+    if not (isinstance(got, dict) and got.get("gene") == [0]):
+        ctx.fail("witness_stale:nonoverlapping_literal_witness", {"op": "nonoverlapping_profile", "args": kw},
+                 "the real constructor gives %s, the witness theorem says gene profile [0]" % (got,))
+    # corrector_guard_orig_witness / _overlap: the repaired tail returns the read's own exons on both pipeline inputs
+    for name, kw in (("corrector_guard_orig_witness",
+                      {"reg": (7479, 7940), "ni": [(7510, 7513), (7518, 7571), (7577, 7576), (7608, 7607), (7639, 7639)],
+                       "exons": [(7479, 7509), (7514, 7517), (7573, 7575), (7577, 7606), (7608, 7637), (7640, 7940)]}),
+                     ("corrector_guard_orig_witness_overlap",
+                      {"reg": (10150, 11223), "ni": [(10152, 11050), (11172, 11172), (11181, 11185), (11182, 11185), (11188, 11192)],
+                       "exons": [(10150, 10151), (11051, 11171), (11173, 11177), (11180, 11181), (11186, 11187), (11193, 11223)]})):
+        r = oracle_case("corrector_guard", kw)
+        res[name] = "discarded" if r is None else r
+        if r:
+            ctx.fail("corrector_guard:intron_lost", {"op": "corrector_guard", "args": vlib.canon(kw)}, r)
+    ctx.extra["witness_replays"] = res
+
+
 def read_profile_statement(ctx):
     """the last sentence of C19 on the REAL constructors: "read profiles mark a feature present iff a read feature matches it
     within delta and absent iff the read spans it without matching".  The exact expectation for ALL inputs and the class
@@ -568,11 +769,24 @@ def read_profile_statement(ctx):
     cases = [(w["op"], {"known": w["known"], "gene_region": w["gene_region"], "d": w["d"], "abs_d": w.get("abs_d", 20),
                         "blocks": w["blocks"], "polya": -1, "polyt": -1}) for w in C13.MICRO_WITNESSES]
     gen = getattr(G13, "profile_cases", None)
+    n_small = n_genome = 0
     if gen is not None:
         try:
-            cases += [(op, kw) for op, kw in gen(rng, ctx.tier == "quick")][: (1500 if ctx.tier == "quick" else 15000)]
+            allc = [(op, kw) for op, kw in gen(rng, ctx.tier == "quick")]
+            # audit-2 G1: the generator emits the small universe first; a PREFIX cap kept only that part (delta <= 2) in both
+            # tiers.  Now: every genome-scale / empty-block case + a stride through the small universe
+            small = [c for c in allc if c[1]["blocks"] and max(b[1] for b in c[1]["blocks"]) <= 8 and c[1]["d"] <= 2]
+            rest = [c for c in allc if not (c[1]["blocks"] and max(b[1] for b in c[1]["blocks"]) <= 8 and c[1]["d"] <= 2)]
+            want = 1200 if ctx.tier == "quick" else 12000
+            small = small[:: max(1, len(small) // want)]
+            n_small, n_genome = len(small), len(rest)
+            cases += small + rest
         except TypeError:
             pass
+    # audit-2 G6: wider pools (1-4 known features, 1-4 read blocks, delta 0..3, polyA / polyT anywhere, gene region wider
+    # than the hull of the known features)
+    wide = G.wide_read_profile_cases(rng, 700 if ctx.tier == "quick" else 8000)
+    cases += wide
     for op, kw in cases:
         if op not in ("exon_profile", "intron_profile"):
             continue
@@ -584,11 +798,45 @@ def read_profile_statement(ctx):
             kept[k] = kept.get(k, 0) + 1
             if kept[k] <= 3 and kind != "tie_loser_exon":
                 ctx.fail(k, {"op": "read_profile", "args": {"op": op, "case": vlib.canon(kw)}}, detail)
-    ctx.extra["read_profile_statement"] = {"cases": n_cases, "in_class_micro_feature_sweep_skip": n_class, "kinds": kept}
+    ctx.extra["read_profile_statement"] = {"cases": n_cases, "small_universe": n_small, "genome_scale_and_empty": n_genome,
+                                           "wide_pools": len(wide), "in_class_micro_feature_sweep_skip": n_class, "kinds": kept}
+
+
+def site_contract_check(ctx):
+    """the weaker contract of the monitor at `get_exons` in construct_fl_isoforms (mon_wrap.LISTFN_SITE_CONTRACT) is justified by
+    the length test right behind the call (Props/C19Callers.get_exons_length_guard): the test must be there in the source"""
+    import ast
+    path = os.path.join(vlib.REPO, "src", "graph_based_model_construction.py")
+    want_call = "novel_exons = get_exons(transcript_range, list(intron_path))"
+    want_test = "len(novel_exons) != len(intron_path) + 1"
+    found = None
+    try:
+        tree = ast.parse(open(path).read())
+        for fn in ast.walk(tree):
+            if isinstance(fn, ast.FunctionDef) and fn.name == "construct_fl_isoforms":
+                for node in ast.walk(fn):
+                    body = getattr(node, "body", None)
+                    if not isinstance(body, list):
+                        continue
+                    for a, b in zip(body, body[1:]):
+                        if ast.unparse(a) == want_call:
+                            found = isinstance(b, ast.If) and ast.unparse(b.test) == want_test and \
+                                len(b.body) == 1 and isinstance(b.body[0], ast.Continue) and not b.orelse
+    except (OSError, SyntaxError) as exc:
+        found = None
+        ctx.notes.append("site_contract_check: %r" % (exc,))
+    ctx.extra["site_contract_get_exons_length_guard_in_source"] = found
+    if not found:
+        ctx.fail("site_contract_unjustified", {"op": "site_contract", "args": {"file": "src/graph_based_model_construction.py"}},
+                 "construct_fl_isoforms: `%s` is no longer followed by `if %s: continue` - the monitor's weaker contract for this call "
+                 "site (well-formed introns only) rests on that test (get_exons_length_guard)" % (want_call, want_test))
+    return bool(found)
 
 
 def oracle(ctx, disagreements, broken):
-    # seeded with the disagreeing inputs first
+    # the witnesses of the theorems first (realistic inputs from the pipeline), then the disagreeing inputs
+    witness_replays(ctx)
+    site_contract_check(ctx)
     n = 0
     for d in disagreements:
         r = oracle_case(d["op"], d["input"])
@@ -596,7 +844,7 @@ def oracle(ctx, disagreements, broken):
         if r:
             ctx.fail("set_semantics:" + d["op"], {"op": d["op"], "args": d["input"]}, r)
     # then the normal generator (independent of the driver)
-    cases = gen_cases(ctx, {"split_exons"})
+    cases = gen_cases(ctx, {"split_exons", "nonoverlapping_profile", "corrector_guard"})
     if ctx.tier == "quick" and not broken:
         cases = ctx.rng.sample(cases, min(len(cases), 30000))
     for op, kw in cases:
@@ -606,12 +854,14 @@ def oracle(ctx, disagreements, broken):
             ctx.fail("set_semantics:" + op, {"op": op, "args": kw}, r)
             if len(ctx.failures) > 20:
                 break
-    for tr, delta in gene_profile_annotations(ctx.rng, 80 if ctx.tier == "quick" else 800):
-        fails, _, _ = gene_profile_case(ctx, tr, delta)
+    for genes, delta, builder in gene_profile_annotations(ctx.rng, 100 if ctx.tier == "quick" else 1000):
+        fails, _, _ = gene_profile_case(ctx, genes, delta, builder)
         n += 1
         for f in fails[:2]:
-            ctx.fail("isoform_profile_glue:" + f["kind"], {"op": "gene_profile", "args": {"transcripts": tr, "delta": delta}},
-                     "isoform %s %s profile %s, expected %s (features %s)" % (f["transcript"], f["kind"], f["got"], f["expected"], f["features"]))
+            ctx.fail("isoform_profile_glue:" + f["kind"],
+                     {"op": "gene_profile", "args": {"genes": genes, "delta": delta, "builder": builder}},
+                     "isoform %s %s profile %s range %s, expected %s range %s (features %s)"
+                     % (f["transcript"], f["kind"], f["got"], f["range"], f["expected"], f["expected_range"], f["features"]))
     ctx.extra["oracle_cases"] = n
     read_profile_statement(ctx)
     binsearch_pipeline_monitor(ctx)
@@ -622,28 +872,39 @@ def oracle(ctx, disagreements, broken):
 #      passes another feature list, is noticed)
 
 def binsearch_run(kind, seed):
-    """one real pipeline run under harness/mon_wrap.py (`binsearch`) -> (status, calls, [violation records])"""
+    """one real pipeline run under harness/mon_wrap.py (`binsearch` + `listfns`) -> (status, calls {mon: n}, [violation records]).
+    kind: toy | synth (simple synthetic polyA data) | adv (gen/c19adv.py: touching exons, 1-bp introns, 1-3 bp exons)"""
     import shutil
     import pipeline as P
     import mon_wrap
     d = P.scratch("isoverif_c19bs_")
     try:
+        extra = []
         if kind == "toy":
             paths = P.copy_toy(os.path.join(d, "data"))
+        elif kind == "adv":
+            from gen import c19adv
+            paths = c19adv.adversarial_dataset(seed).write(os.path.join(d, "data"))
+            extra = ["--count_exons"]
         else:
             from gen import synth
             paths = synth.simple_dataset(seed=seed, n_chroms=1, genes_per_chrom=4, reads_per_tx=6, polya=True).write(os.path.join(d, "data"))
+            extra = ["--count_exons"]
         if "bam" not in paths:
-            return "infra: no input data", 0, []
+            return "infra: no input data", {}, []
         mon = os.path.join(d, "mon.jsonl")
-        rc, log = P.run_isoquant(os.path.join(d, "out"), P.std_args(paths, threads=2),
-                                 wrapper=os.path.join(vlib.HERE, "mon_wrap.py"), env={"MON_FILE": mon, "MON_SET": "binsearch"})
+        rc, log = P.run_isoquant(os.path.join(d, "out"), P.std_args(paths, threads=2, extra=extra),
+                                 wrapper=os.path.join(vlib.HERE, "mon_wrap.py"), env={"MON_FILE": mon, "MON_SET": "binsearch,listfns"})
         calls, viol = mon_wrap.read_monitor(mon)
         if rc != 0 and not viol:
-            return "infra: rc=%s %s" % (rc, log[-300:]), calls.get("binsearch", 0), []
-        return "ok", calls.get("binsearch", 0), viol
+            return "infra: rc=%s %s" % (rc, log[-300:]), calls, []
+        return "ok", calls, viol
     finally:
         shutil.rmtree(d, ignore_errors=True)
+
+
+ADV_SEEDS_QUICK = (3, 9)
+ADV_SEEDS_THOROUGH = (3, 5, 6, 7, 8, 9)
 
 
 def binsearch_pipeline_monitor(ctx):
@@ -656,34 +917,59 @@ def binsearch_pipeline_monitor(ctx):
         if got != w:
             ctx.fail("monitor_selftest", {"op": "monitor_selftest", "args": {"list": [list(x) for x in l]}},
                      "binsearch_problems gives %s, expected %s" % (got, w))
+    want2 = {(): ["listfns_empty"], ((1, 5), (6, 6), (10, 12)): [], ((1, 5), (5, 8)): ["listfns_not_sd"],
+             ((7577, 7576), (7608, 7607)): ["listfns_not_wf"], ((3, 9), (3, 9)): ["listfns_not_sd"],
+             ((11181, 11185), (11182, 11185)): ["listfns_not_sd"], ((9, 3), (1, 2)): ["listfns_not_wf", "listfns_not_sd"]}
+    for l, w in want2.items():
+        got = mon_wrap.listfns_problems(list(l))
+        if got != w:
+            ctx.fail("monitor_selftest", {"op": "monitor_selftest", "args": {"list": [list(x) for x in l]}},
+                     "listfns_problems gives %s, expected %s" % (got, w))
     plan = [("toy", 0), ("synth", ctx.seed % 1000 + 1)] + ([] if ctx.tier == "quick" else [("synth", ctx.seed % 1000 + k) for k in (2, 3, 4)])
-    total = 0
+    plan += [("adv", k) for k in (ADV_SEEDS_QUICK if ctx.tier == "quick" else ADV_SEEDS_THOROUGH)]
+    total = {"binsearch": 0, "listfns": 0, "listfns_site_contract": 0}
+    sites = {}
     for kind, seed in plan:
         st, calls, viol = binsearch_run(kind, seed)
-        total += calls
-        ctx.count("binsearch_pipeline:%s:calls" % kind, calls)
+        for m in total:
+            total[m] += calls.get(m, 0)
+            ctx.count("%s_pipeline:%s:calls" % (m, kind), calls.get(m, 0))
         if st != "ok":
-            ctx.notes.append("binsearch pipeline monitor (%s, %s): %s" % (kind, seed, st))
+            ctx.notes.append("pipeline monitor (%s, %s): %s" % (kind, seed, st))
             continue
         seen = set()
         for r in viol:
-            if r.get("kind") in seen:
+            key = (r.get("kind"), r.get("fn"), str(r.get("where", "")).split(":")[0])
+            sites[str(key)] = sites.get(str(key), 0) + 1
+            if key in seen:
                 continue
-            seen.add(r.get("kind"))
+            seen.add(key)
+            which = "bin_search_spec / bin_search_rev_spec" if r.get("mon") == "binsearch" else \
+                "the C19 list theorems (DESIGN §6: sorted, pairwise disjoint, well formed)"
             ctx.fail("hyp_" + str(r.get("kind")), {"op": "binsearch_pipeline", "args": {"data": kind, "seed": seed}},
-                     "hypothesis of bin_search_spec / bin_search_rev_spec violated by a real caller: %s"
-                     % {k: v for k, v in r.items() if k != "mon"})
-    ctx.extra["binsearch_pipeline_monitor"] = {"runs": len(plan), "calls": total,
+                     "hypothesis of %s violated by a real caller: %s" % (which, {k: v for k, v in r.items() if k != "mon"}))
+    ctx.extra["binsearch_pipeline_monitor"] = {"runs": len(plan), "calls": total["binsearch"],
                                                "what": "interval_bin_search(_rev) argument lists: non-empty, well formed, starts and "
                                                        "ends strictly increasing, on every real call (harness/mon_wrap.py)"}
-    if not total:
+    ctx.extra["listfns_pipeline_monitor"] = {"runs": len(plan), "calls": total["listfns"], "violating_sites": sites,
+                                             "calls_under_a_weaker_site_contract (get_exons in construct_fl_isoforms, non-SD "
+                                             "intron path, rejected by the length guard)": total["listfns_site_contract"],
+                                             "what": "every interval-list argument of the 15 list functions of src/common.py, of the "
+                                                     "profile constructors and of set_profiles on every real call: well formed, sorted, "
+                                                     "pairwise disjoint, non-empty where required (harness/mon_wrap.py `listfns`); runs: "
+                                                     "toy data, simple synthetic polyA data, adversarial annotations (gen/c19adv.py)"}
+    if not total["binsearch"]:
         ctx.notes.append("binsearch pipeline monitor: no call of interval_bin_search(_rev) was observed")
+    if not total["listfns"]:
+        ctx.notes.append("listfns pipeline monitor: no call of a list function was observed")
 
 
 def replay(ctx, failure):
     inp = failure["input"]
     if inp["op"] == "monitor_selftest":
         return True
+    if inp["op"] == "site_contract":
+        return not site_contract_check(ctx)
     if inp["op"] == "binsearch_pipeline":
         st, _, viol = binsearch_run(inp["args"]["data"], inp["args"]["seed"])
         return any("hyp_" + str(r.get("kind")) == failure["kind"] for r in viol)
@@ -692,7 +978,11 @@ def replay(ctx, failure):
         a = inp["args"]
         return bool(C13.oracle_profile(a["op"], a["case"]))
     if inp["op"] == "gene_profile":
-        tr = {k: [tuple(e) for e in v] for k, v in inp["args"]["transcripts"].items()}
-        fails, _, _ = gene_profile_case(ctx, tr, inp["args"]["delta"])
+        a = inp["args"]
+        if "genes" in a:
+            genes = {g: (v[0], {k: [tuple(e) for e in ex] for k, ex in v[1].items()}) for g, v in a["genes"].items()}
+        else:
+            genes = {"G1": ("+", {k: [tuple(e) for e in v] for k, v in a["transcripts"].items()})}
+        fails, _, _ = gene_profile_case(ctx, genes, a["delta"], a.get("builder", "db"))
         return bool(fails)
     return oracle_case(inp["op"], inp["args"]) is not None
